@@ -258,10 +258,18 @@ async def stream(
 ) -> AsyncIterator[Any]:
     # This dirty trickery is for cases when the server thinks too slowly before
     # sending the headers, but the stopper is already set during the initial wait.
+    # NB: the callback runs outside of any task, so the task to cancel is remembered here;
+    # and we remember that it was us who cancelled it, so that a cancellation from elsewhere
+    # (e.g. the operator exiting at the same moment when it is paused) is never mistaken
+    # for ours and swallowed.
+    task = asyncio.current_task()
+    cancelled_by_stopper = False
+
     def request_cancel_callback(_: aiotasks.Future) -> None:
-        task = asyncio.current_task()
-        assert task is not None  # for type-checkers; this is `async def`, so always in a task.
-        task.cancel()
+        nonlocal cancelled_by_stopper
+        if task is not None:
+            cancelled_by_stopper = True
+            task.cancel()
 
     if stopper is not None and not stopper.done():
         stopper.add_done_callback(request_cancel_callback)
@@ -276,10 +284,11 @@ async def stream(
             logger=logger,
         )
     except asyncio.CancelledError:
-        if stopper is not None and stopper.done():
+        if cancelled_by_stopper and (
+                task is None or not hasattr(task, 'uncancel') or task.uncancel() == 0):
             return
         else:
-            raise  # triggered not by the stopper, escalate
+            raise  # triggered not (or not only) by the stopper, escalate
     finally:
         if stopper is not None:
             stopper.remove_done_callback(request_cancel_callback)
